@@ -75,3 +75,29 @@ Definition case_ok (o : qcop) (n : nat) (inv exact : bool) (N : nat)
       | _, _ => false
       end
   end.
+
+(* ---- ScalingOperator._get_fct / DiagonalOperator.get_sqrt: implementation result vs model ---- *)
+Definition qget_fct := get_fct Qc Qcinv qsqrt qneg qzero.
+Definition qdiag_get_sqrt := diag_get_sqrt Qc qsqrt qneg.
+
+Definition dtype_eqb (a b : dtype) : bool :=
+  match a, b with DNone, DNone | DReal, DReal | DComplex, DComplex => true | _, _ => false end.
+
+(* impl = inl exception class | inr the returned standard deviation *)
+Definition getfct_ok (c : Qc) (cplx inv : bool) (impl : refusal + Qc) : bool :=
+  match impl, qget_fct c cplx inv with
+  | inl e, Refuse e' => refusal_eqb e e'
+  | inr s, Ok s' => Qc_eq_bool s s'
+  | _, _ => false
+  end.
+
+(* impl = inl exception class | inr (_ldiag, _complex, _trafo, _dtype) of the operator returned by get_sqrt() *)
+Definition getsqrt_ok (d : list Qc) (cplx : bool) (trafo : nat) (dt : dtype) (n : nat)
+                      (impl : refusal + (list Qc * bool * nat * dtype)) : bool :=
+  match impl, qdiag_get_sqrt (vec_of d) cplx trafo dt n with
+  | inl e, Refuse e' => refusal_eqb e e'
+  | inr (l, c, t, dt'), Ok (CDiag _ r c' t' dt'') =>
+      Nat.eqb (length l) n && forallb (fun '(i, x) => Qc_eq_bool x (r i)) (combine (seq 0 n) l) &&
+      Bool.eqb c c' && Nat.eqb t t' && dtype_eqb dt' dt''
+  | _, _ => false
+  end.
